@@ -13,6 +13,9 @@ CHECKS = {
  "C20": dict(cat="model_checking", tech="Kani/CBMC bounded model checking of FsCommand::execute with a nondeterministically refused lock stub",
              text="Bounded model checking of the compiled execute for each command with maybe_lock refused nondeterministically: no model-FS mutation may follow a refusal and the command must return Err.",
              note="Trusted: Kani translation, lock stub contract (fcntl semantics outside the claim).", ref="DESIGN.md §3 C20"),
+ "C09": dict(cat="other", engine="mirsym", tech="bounded symbolic execution of rustc MIR (own engine) with z3 validity queries against a reference decision table; CLI replay",
+             text="Every path of the walk's decision functions and of the closures carrying the nesting level is enumerated symbolically from the MIR of the working tree (environment calls are free symbols); z3 decides for all option values and all 64-bit levels/depths/sizes that the effects equal the documented decision table. Bounded symbolic execution, not a proof: loops over directory entries are cut after one iteration (each entry is handled by the same closure).",
+             note="Trusted: my MIR front end and summaries (lib/mirsym.py, lib/summaries.py), rustc's MIR dump, z3; the `ignore` crate, glob matching (C16) and real directory iteration are outside the claim.", ref="DESIGN.md §3 C09"),
 }
 
 NOT_YET = {}
@@ -51,6 +54,7 @@ def main():
                   "baseline_off_cmd": "cd /repo/fclones && cargo test --workspace --no-fail-fast --offline", "source_commits": [], "add_only": True},
         "engines": [
             {"name": "kani", "path": "lib/kani.py", "serves_properties": [p for p in props if p in CHECKS and CHECKS[p].get("engine", "kani") == "kani"], "kind_free_text": "E1: Kani harnesses (CBMC) over the compiled code in a scratch copy"},
+            {"name": "mirsym", "path": "lib/mirsym.py", "serves_properties": [p for p in props if p in CHECKS and CHECKS[p].get("engine") == "mirsym"], "kind_free_text": "E2: bounded symbolic execution of the nightly MIR dump of the working tree into z3 (path mode, events, lazy symbolic values)"},
         ],
         "checks": checks,
         "not_applicable": na,
